@@ -875,3 +875,97 @@ func (p CPath) onlyWrittenInView(addr ssa.Value) bool {
 	}
 	return n > 0
 }
+
+// failedErrors: the module calls on the path whose error result the path found non-nil (took
+// the `err != nil` arm, or the false arm of `err == nil`).
+func (p CPath) failedErrors(inModule func(*ssa.Function) bool, modPath string) []*ssa.Call {
+	occs := p.OccsPos()
+	rels := p.relationsPos(occs)
+	var out []*ssa.Call
+	var all []errCall
+	for i, oc := range occs {
+		call, ok := oc.In.(*ssa.Call)
+		if !ok {
+			continue
+		}
+		errIdx := -1
+		switch t := call.Type().(type) {
+		case *types.Tuple:
+			for k := 0; k < t.Len(); k++ {
+				if isErrorType(t.At(k).Type()) {
+					errIdx = k
+				}
+			}
+		default:
+			if isErrorType(call.Type()) {
+				errIdx = 0
+			}
+		}
+		if errIdx < 0 {
+			continue
+		}
+		if f := call.Call.StaticCallee(); f != nil {
+			if !inModule(f) {
+				continue
+			}
+		} else if call.Call.IsInvoke() {
+			pk := call.Call.Method.Pkg()
+			if pk == nil || !(pk.Path() == modPath || strings.HasPrefix(pk.Path(), modPath+"/")) {
+				continue
+			}
+		} else {
+			continue
+		}
+		var errv ssa.Value = call
+		if _, isT := call.Type().(*types.Tuple); isT {
+			errv = nil
+			for _, ref := range *call.Referrers() {
+				if ex, ok := ref.(*ssa.Extract); ok && ex.Index == errIdx {
+					errv = ex
+				}
+			}
+			if errv == nil {
+				continue
+			}
+		}
+		failed := false
+		for _, rel := range rels {
+			if rel.At < i || rel.Op != token.NEQ {
+				continue
+			}
+			for _, pr := range [][2]ssa.Value{{rel.X, rel.Y}, {rel.Y, rel.X}} {
+				if isNilConst(pr[1]) && p.Upto(occs[rel.At].Seg).resolvesThrough(rel.Ctx, pr[0], errv) {
+					failed = true
+				}
+			}
+		}
+		// handed on (stored in a cell the caller reads, wrapped, passed along): not passed over
+		handedOn := false
+		for _, ref := range *errv.Referrers() {
+			switch x := ref.(type) {
+			case *ssa.Store:
+				if x.Val == errv {
+					handedOn = true
+				}
+			case *ssa.Call:
+				handedOn = true
+			case *ssa.MakeInterface, *ssa.Phi:
+				_ = x
+			}
+		}
+		all = append(all, errCall{call, failed && !handedOn})
+	}
+	// a failure followed by another exchange on the path is a fallback or a retry: what the
+	// path reports is owed to the later call, which is judged in its turn
+	for k, ec := range all {
+		if ec.failed && k == len(all)-1 {
+			out = append(out, ec.call)
+		}
+	}
+	return out
+}
+
+type errCall struct {
+	call   *ssa.Call
+	failed bool
+}
